@@ -20,9 +20,16 @@ from textx.model import ObjCrossRef
 MMS = {}
 
 
-def get_mm(gid, grammars):
+def mk_user(name):
+    def __init__(self, **kw):
+        for k, v in kw.items():
+            setattr(self, k, v)
+    return type(name, (object,), {"__init__": __init__})
+
+
+def get_mm(gid, grammars, user_classes=None):
     if gid not in MMS:
-        mm = metamodel_from_str(grammars[gid])
+        mm = metamodel_from_str(grammars[gid], classes=[mk_user(n) for n in (user_classes or {}).get(gid, [])])
         mm.register_scope_providers({"*.*": sp.FQN()})
         MMS[gid] = mm
     return MMS[gid]
@@ -81,7 +88,7 @@ def main():
     classes = payload["classes"]
     out = []
     for case in payload["cases"]:
-        mm = get_mm(case["gid"], grammars)
+        mm = get_mm(case["gid"], grammars, payload.get("user_classes"))
         res = {"dump": None, "conf": [], "answers": [], "e2e": [], "error": None, "foreign": 0}
         out.append(res)
         try:
